@@ -57,6 +57,7 @@ type tr struct {
 	recv    string // receiver variable name of the method being read
 	methods map[string]*ast.FuncDecl
 	codes   map[string]int // LCPCode* -> number
+	pinned  map[string]bool
 }
 
 func (t *tr) fail(n ast.Node, format string, a ...any) {
@@ -286,7 +287,7 @@ const replyBlock = `ackOpts, nakOpts, rejOpts := m.processConfigureOptions(opts)
 	`m.sendPacket(PROTO, resp.Serialize())`
 
 const allocBlock = `if m.config.PeerIP == nil && m.config.IPPool != nil { m.config.PeerIP = m.config.IPPool.Allocate(m.sessionID) m.negotiated.PeerIP = m.config.PeerIP m.logger.Debug("Allocated IP for peer", zap.String("ip", m.config.PeerIP.String()), ) }`
-const releaseBlock = `if m.config.IPPool != nil && m.negotiated.PeerIP != nil { m.config.IPPool.Release(m.sessionID) }`
+const releaseBlock = `if m.config.IPPool != nil && m.negotiated.PeerIP != nil { m.config.IPPool.Release(m.sessionID) m.config.PeerIP = nil m.negotiated.PeerIP = nil }`
 
 type handlerOut struct {
 	pre   []string
@@ -374,24 +375,21 @@ func (t *tr) handler(goName string) handlerOut {
 					continue
 				}
 				if c == "m.restartCount > 0" && goName == "timeout" && v.Init == nil {
-					pos := t.onlySwitch(v.Body, goName)
+					ppre, pos := t.onlySwitch(v.Body, goName)
 					eb, ok := v.Else.(*ast.BlockStmt)
 					if !ok {
 						t.fail(v, "%s: expected `if %s.restartCount > 0 { switch } else { switch }`", goName, t.recv)
 					}
-					neg := t.onlySwitch(eb, goName)
+					npre, neg := t.onlySwitch(eb, goName)
 					for _, st := range stateNames {
 						p, hp := pos[st]
 						n, hn := neg[st]
-						if !hp && !hn {
+						if !hp && !hn && ppre == "" && npre == "" {
 							continue
 						}
-						if !hp {
-							p = "[]"
-						}
-						if !hn {
-							n = "[]"
-						}
+						// statements before the switch of a branch run in every state
+						p = concat(ppre, p, hp)
+						n = concat(npre, n, hn)
 						out.table[st] = fmt.Sprintf("(if c.rcPos then %s else %s)", p, n)
 					}
 					seenSwitch = true
@@ -415,15 +413,38 @@ func (t *tr) handler(goName string) handlerOut {
 	return out
 }
 
-func (t *tr) onlySwitch(b *ast.BlockStmt, fn string) map[string]string {
-	if len(b.List) != 1 {
-		t.fail(b, "%s: expected exactly one state switch in the branch", fn)
+// onlySwitch: a branch of timeout(): optional `m.stopTimer()` statements, then exactly one state switch.
+func (t *tr) onlySwitch(b *ast.BlockStmt, fn string) (string, map[string]string) {
+	var pre []string
+	list := b.List
+	for len(list) > 0 && t.src(list[0]) == "m.stopTimer()" {
+		pre = append(pre, ".stopTimer")
+		list = list[1:]
 	}
-	sw, ok := b.List[0].(*ast.SwitchStmt)
+	if len(list) != 1 {
+		t.fail(b, "%s: expected [%s.stopTimer()] and exactly one state switch in the branch", fn, t.recv)
+	}
+	sw, ok := list[0].(*ast.SwitchStmt)
 	if !ok {
-		t.fail(b.List[0], "%s: expected a state switch, found `%s`", fn, t.src(b.List[0]))
+		t.fail(list[0], "%s: expected a state switch, found `%s`", fn, t.src(list[0]))
 	}
-	return t.stateSwitch(sw, fn)
+	p := ""
+	if len(pre) > 0 {
+		p = "[" + strings.Join(pre, ", ") + "]"
+	}
+	return p, t.stateSwitch(sw, fn)
+}
+
+func concat(pre, body string, has bool) string {
+	switch {
+	case pre == "" && !has:
+		return "[]"
+	case pre == "":
+		return body
+	case !has || body == "[]":
+		return pre
+	}
+	return pre + " ++ " + body
 }
 
 // ---------------------------------------------------------------- helpers
@@ -477,11 +498,7 @@ func (t *tr) sendEffs(goName string, wantCode string, wantID string) []string {
 	return effs
 }
 
-func (t *tr) exactBody(goName string, allowed ...string) {
-	fd := t.methods[goName]
-	if fd == nil {
-		panic(failure{fmt.Sprintf("extractfsm: %s: method %s.%s not found", t.path, t.m.typ, goName)})
-	}
+func (t *tr) bodyText(fd *ast.FuncDecl) string {
 	t.recv = fd.Recv.List[0].Names[0].Name
 	var ps []string
 	for _, s := range fd.Body.List {
@@ -490,7 +507,16 @@ func (t *tr) exactBody(goName string, allowed ...string) {
 		}
 		ps = append(ps, t.src(s))
 	}
-	got := strings.Join(ps, " | ")
+	return strings.Join(ps, " | ")
+}
+
+func (t *tr) exactBody(goName string, allowed ...string) {
+	fd := t.methods[goName]
+	if fd == nil {
+		panic(failure{fmt.Sprintf("extractfsm: %s: method %s.%s not found", t.path, t.m.typ, goName)})
+	}
+	t.pinned[goName] = true
+	got := t.bodyText(fd)
 	for _, a := range allowed {
 		if got == a {
 			return
@@ -506,15 +532,28 @@ func (t *tr) dispatch() (disp []string, extra []string, unknownRejects bool) {
 	}
 	t.recv = fd.Recv.List[0].Names[0].Name
 	var sw *ast.SwitchStmt
-	for _, s := range fd.Body.List {
-		if v, ok := s.(*ast.SwitchStmt); ok {
-			if sw != nil {
-				t.fail(v, "ReceivePacket: more than one switch")
+	for i, s := range fd.Body.List {
+		text := t.src(s)
+		switch {
+		case sw != nil:
+			t.fail(s, "ReceivePacket: statement `%s` after the code switch is outside the subset", text)
+		case text == "pkt, err := ParseLCPPacket(data)" && i == 0:
+		case i == 1 && strings.HasPrefix(text, "if err != nil { return fmt.Errorf("):
+			if v, ok := s.(*ast.IfStmt); !ok || v.Else != nil || len(v.Body.List) != 1 {
+				t.fail(s, "ReceivePacket: expected `if err != nil { return fmt.Errorf(…) }`")
+			}
+		case text == "m.mu.Lock()" || text == "defer m.mu.Unlock()":
+		case t.isLogging(s):
+		default:
+			v, ok := s.(*ast.SwitchStmt)
+			if !ok {
+				t.fail(s, "ReceivePacket: statement `%s` before the code switch is outside the subset "+
+					"(ParseLCPPacket + error return, lock, logging)", text)
 			}
 			sw = v
 		}
 	}
-	if sw == nil || sw.Tag == nil || t.src(sw.Tag) != "pkt.Code" {
+	if sw == nil || sw.Init != nil || sw.Tag == nil || t.src(sw.Tag) != "pkt.Code" {
 		t.fail(fd, "ReceivePacket: expected `switch pkt.Code`")
 	}
 	rev := map[string]string{}
@@ -559,11 +598,199 @@ func (t *tr) dispatch() (disp []string, extra []string, unknownRejects bool) {
 			if h != "" {
 				disp = append(disp, fmt.Sprintf("(%d, .%s)", code, h))
 			} else {
+				// codes that are not automaton events: their handling is modelled by hand (Bng.Ncp.step0) and pinned below
+				want := map[int]string{7: "return m.receiveCodeReject(pkt)", 8: "return m.receiveProtocolReject(pkt)",
+					9: "return m.receiveEchoRequest(pkt)", 10: "return m.receiveEchoReply(pkt)", 11: "return nil"}[code]
+				got := ""
+				for _, b := range cc.Body {
+					got += t.src(b) + " | "
+				}
+				if want == "" || got != want+" | " {
+					t.fail(cc, "ReceivePacket: case %s: body `%s` is outside the subset", id.Name, got)
+				}
 				extra = append(extra, strconv.Itoa(code))
 			}
 		}
 	}
 	return
+}
+
+// ---------------------------------------------------------------- pins and sweep
+
+var dumpBodies bool
+
+// bodies that Bng/Model/Ncp.lean models by hand (step0: Code-Reject, Protocol-Reject, Echo, the Send* API,
+// SetPeerIP): any textual change must be re-read against the model.
+var pins = map[string]map[string]string{
+	"lcp.go": {
+		"receiveCodeReject":     `if len(pkt.Data) > 0 { rejectedCode := pkt.Data[0] if rejectedCode >= LCPCodeConfigRequest && rejectedCode <= LCPCodeConfigReject { m.closeInternal("Critical code rejected") } } | return nil`,
+		"receiveProtocolReject": `if len(pkt.Data) < 2 { return nil } | rejectedProto := binary.BigEndian.Uint16(pkt.Data[:2]) | if rejectedProto == PROTO { m.closeInternal("LCP rejected") } | return nil`,
+		"receiveEchoRequest":    `if m.state != LCPStateOpened { return nil } | if len(pkt.Data) < 4 { return nil } | replyData := make([]byte, 4+len(pkt.Data)-4) | binary.BigEndian.PutUint32(replyData[:4], m.config.MagicNumber) | if len(pkt.Data) > 4 { copy(replyData[4:], pkt.Data[4:]) } | reply := &LCPPacket{ Code: LCPCodeEchoReply, Identifier: pkt.Identifier, Data: replyData, } | m.sendPacket(PROTO, reply.Serialize()) | return nil`,
+		"receiveEchoReply":      `return nil`,
+		"SendEchoRequest":       `m.mu.Lock() | defer m.mu.Unlock() | if m.state != LCPStateOpened { return 0 } | m.identifier++ | data := make([]byte, 4) | binary.BigEndian.PutUint32(data, m.config.MagicNumber) | pkt := &LCPPacket{ Code: LCPCodeEchoRequest, Identifier: m.identifier, Data: data, } | m.sendPacket(PROTO, pkt.Serialize()) | return m.identifier`,
+		"SendProtocolReject":    `m.mu.Lock() | defer m.mu.Unlock() | m.identifier++ | rejectData := make([]byte, 2+len(data)) | binary.BigEndian.PutUint16(rejectData[:2], protocol) | copy(rejectData[2:], data) | pkt := &LCPPacket{ Code: LCPCodeProtoReject, Identifier: m.identifier, Data: rejectData, } | m.sendPacket(PROTO, pkt.Serialize())`,
+		"sendCodeReject":        `m.identifier++ | rejectedData := rejected.Serialize() | pkt := &LCPPacket{ Code: LCPCodeCodeReject, Identifier: m.identifier, Data: rejectedData, } | m.sendPacket(PROTO, pkt.Serialize())`,
+	},
+	"ipcp.go": {
+		"SetPeerIP": `m.mu.Lock() | defer m.mu.Unlock() | m.config.PeerIP = ip | m.negotiated.PeerIP = ip`,
+	},
+	"ipv6cp.go": {},
+}
+
+// translated or pinned methods: the only places that may touch the automaton's core fields
+var translated = []string{"Up", "Down", "Open", "closeInternal", "receiveConfigureRequest", "receiveConfigureAck",
+	"receiveConfigureNak", "receiveConfigureReject", "receiveTerminateRequest", "receiveTerminateAck", "timeout",
+	"sendConfigureRequest", "sendTerminateRequest", "sendTerminateAck", "ReceivePacket"}
+
+var machineTypes = map[string]string{"LCPStateMachine": "LCPState", "IPCPStateMachine": "IPCPState", "IPV6CPStateMachine": "IPV6CPState"}
+
+func recvType(fd *ast.FuncDecl) string {
+	if fd.Recv == nil || len(fd.Recv.List) != 1 {
+		return ""
+	}
+	ty := fd.Recv.List[0].Type
+	if st, ok := ty.(*ast.StarExpr); ok {
+		ty = st.X
+	}
+	if id, ok := ty.(*ast.Ident); ok {
+		return id.Name
+	}
+	return ""
+}
+
+// sweep: every function of package pppoe (non-test files, without the verif build tag) that is not a translated or
+// pinned method of this machine must leave the automaton alone: no write to state/restartCount/identifier/
+// lastIdentifier/restartTimer, no call of a core method, no assignment of one of this machine's state constants to a
+// field named `state`.  (Syntactic: receiver/parameter names of machine type, the field names that only the three
+// machines have, and the state constants.  A write through a local alias of another name to `identifier` alone is
+// not seen.)
+func (t *tr) sweep(repo string, own *ast.File) {
+	known := map[string]bool{}
+	for _, n := range translated {
+		known[n] = true
+	}
+	for n := range t.pinned {
+		known[n] = true
+	}
+	dir := filepath.Join(repo, "pkg/pppoe")
+	ents, err := os.ReadDir(dir)
+	if err != nil {
+		panic(failure{fmt.Sprintf("extractfsm: %s: %v", dir, err)})
+	}
+	for _, e := range ents {
+		n := e.Name()
+		if !strings.HasSuffix(n, ".go") || strings.HasSuffix(n, "_test.go") {
+			continue
+		}
+		path := filepath.Join(dir, n)
+		src, err := os.ReadFile(path)
+		if err != nil {
+			panic(failure{fmt.Sprintf("extractfsm: %s: %v", path, err)})
+		}
+		if bytes.HasPrefix(bytes.TrimSpace(src), []byte("//go:build verif")) {
+			continue // verification hooks: compiled only into the harness
+		}
+		f, err := parser.ParseFile(t.fset, path, src, 0)
+		if err != nil {
+			panic(failure{fmt.Sprintf("extractfsm: %s: %v", path, err)})
+		}
+		for _, d := range f.Decls {
+			fd, ok := d.(*ast.FuncDecl)
+			if !ok || fd.Body == nil {
+				continue
+			}
+			rt := recvType(fd)
+			if rt == t.m.typ && n == t.m.file && known[fd.Name.Name] {
+				continue
+			}
+			if rt == t.m.typ && n != t.m.file && known[fd.Name.Name] {
+				t.fail(fd, "method %s.%s is declared in %s, not in %s", rt, fd.Name.Name, n, t.m.file)
+			}
+			// names bound to this machine's type in the signature
+			mine := map[string]bool{}
+			collect := func(fl *ast.FieldList) {
+				if fl == nil {
+					return
+				}
+				for _, fld := range fl.List {
+					ty := fld.Type
+					if st, ok := ty.(*ast.StarExpr); ok {
+						ty = st.X
+					}
+					if id, ok := ty.(*ast.Ident); ok && id.Name == t.m.typ {
+						for _, nm := range fld.Names {
+							mine[nm.Name] = true
+						}
+					}
+				}
+			}
+			collect(fd.Recv)
+			collect(fd.Type.Params)
+			where := fmt.Sprintf("%s (%s)", fd.Name.Name, n)
+			if rt != "" {
+				where = fmt.Sprintf("%s.%s (%s)", rt, fd.Name.Name, n)
+			}
+			write := func(l ast.Expr, rhs ast.Expr) {
+				sel, ok := l.(*ast.SelectorExpr)
+				if !ok {
+					return
+				}
+				x, _ := sel.X.(*ast.Ident)
+				f := sel.Sel.Name
+				unique := f == "restartCount" || f == "lastIdentifier" || f == "restartTimer"
+				coreField := unique || f == "state" || f == "identifier"
+				if coreField && x != nil && mine[x.Name] {
+					t.fail(l, "%s writes %s.%s: only the translated event methods may (it is not translated, so the tables would not change)", where, x.Name, f)
+				}
+				if unique && (rt == "" || machineTypes[rt] == "") {
+					t.fail(l, "%s writes the automaton field .%s", where, f)
+				}
+				if f == "state" && rhs != nil {
+					if id, ok := rhs.(*ast.Ident); ok && strings.HasPrefix(id.Name, t.m.statePrefix) {
+						t.fail(l, "%s assigns %s to a .state field outside the translated event methods", where, id.Name)
+					}
+				}
+			}
+			ast.Inspect(fd.Body, func(x ast.Node) bool {
+				switch v := x.(type) {
+				case *ast.AssignStmt:
+					for i, l := range v.Lhs {
+						var r ast.Expr
+						if len(v.Rhs) == len(v.Lhs) {
+							r = v.Rhs[i]
+						}
+						write(l, r)
+					}
+				case *ast.IncDecStmt:
+					write(v.X, nil)
+				case *ast.CallExpr:
+					if sel, ok := v.Fun.(*ast.SelectorExpr); ok {
+						if id, ok := sel.X.(*ast.Ident); ok && mine[id.Name] && core[sel.Sel.Name] && sel.Sel.Name != "sendPacket" {
+							t.fail(v, "%s calls %s.%s: only the translated event methods may", where, id.Name, sel.Sel.Name)
+						}
+					}
+				case *ast.CompositeLit:
+					if id, ok := v.Type.(*ast.Ident); ok && id.Name == t.m.typ {
+						for _, e := range v.Elts {
+							kv, ok := e.(*ast.KeyValueExpr)
+							if !ok {
+								continue
+							}
+							k := t.src(kv.Key)
+							if k == "state" && t.src(kv.Value) != t.m.statePrefix+"Initial" {
+								t.fail(kv, "%s constructs a %s in state %s, the model starts in Initial", where, t.m.typ, t.src(kv.Value))
+							}
+							if k == "restartCount" || k == "identifier" || k == "lastIdentifier" || k == "restartTimer" {
+								t.fail(kv, "%s constructs a %s with %s set, the model starts from the zero value", where, t.m.typ, k)
+							}
+						}
+					}
+				}
+				return true
+			})
+		}
+	}
+	_ = own
 }
 
 // ---------------------------------------------------------------- driver
@@ -635,7 +862,7 @@ func translate(repo string, m machine) (lean string, err error) {
 		}
 	}()
 	fset := token.NewFileSet()
-	t := &tr{fset: fset, m: m, path: filepath.Join(repo, "pkg/pppoe", m.file), methods: map[string]*ast.FuncDecl{}}
+	t := &tr{fset: fset, m: m, path: filepath.Join(repo, "pkg/pppoe", m.file), methods: map[string]*ast.FuncDecl{}, pinned: map[string]bool{}}
 	t.codes = loadCodes(fset, filepath.Join(repo, "pkg/pppoe/protocol.go"))
 	f, perr := parser.ParseFile(fset, t.path, nil, 0)
 	if perr != nil {
@@ -669,6 +896,24 @@ func translate(repo string, m machine) (lean string, err error) {
 	t.exactBody("startTimer",
 		"m.timerMu.Lock() | defer m.timerMu.Unlock() | if m.restartTimer != nil { m.restartTimer.Stop() } | m.restartTimer = time.AfterFunc(m.config.RestartTimer, func() { m.timeout() })",
 		"m.timerMu.Lock() | defer m.timerMu.Unlock() | if m.restartTimer != nil { m.restartTimer.Stop() } | timeout := m.config.RestartTimer | if timeout == 0 { timeout = 3 * time.Second } | m.restartTimer = time.AfterFunc(timeout, func() { m.timeout() })")
+
+	t.exactBody("GetState", "m.mu.RLock() | defer m.mu.RUnlock() | return m.state")
+	t.exactBody("IsOpened", "m.mu.RLock() | defer m.mu.RUnlock() | return m.state == "+m.statePrefix+"Opened")
+	t.exactBody("SetOnStateChange", "m.mu.Lock() | defer m.mu.Unlock() | m.onStateChange = callback")
+	for name, text := range pins[m.file] {
+		t.exactBody(name, text)
+	}
+	if dumpBodies {
+		var names []string
+		for n := range t.methods {
+			names = append(names, n)
+		}
+		sort.Strings(names)
+		for _, n := range names {
+			fmt.Printf("%s %s: %s\n", m.file, n, t.bodyText(t.methods[n]))
+		}
+	}
+	t.sweep(repo, f)
 
 	var b strings.Builder
 	fmt.Fprintf(&b, "-- GENERATED by /verif/harness/cmd/extractfsm from %s — regenerated on every run, do not edit, do not commit.\n", t.path)
@@ -707,18 +952,32 @@ func translate(repo string, m machine) (lean string, err error) {
 func main() {
 	repo := flag.String("repo", "/repo", "bng working tree")
 	out := flag.String("out", "/verif/lean/Bng/Gen", "output directory")
+	flag.BoolVar(&dumpBodies, "dump", false, "print the normalised bodies of all methods (for maintaining the pins)")
 	flag.Parse()
 	rc := 0
 	for _, m := range machines {
 		p := filepath.Join(*out, m.module+".lean")
-		_ = os.Remove(p)
 		lean, err := translate(*repo, m)
 		if err != nil {
+			// no table for a source the translator does not understand: a stale one must not survive
+			_ = os.Remove(p)
 			fmt.Fprintln(os.Stderr, err)
 			rc = 1
 			continue
 		}
-		if err := os.WriteFile(p, []byte(lean), 0o644); err != nil {
+		// atomically: a concurrent `lake build` sees either the old table or the new one, never half a file
+		tmp := p + ".tmp"
+		if err := os.WriteFile(tmp, []byte(lean), 0o644); err == nil {
+			err = os.Rename(tmp, p)
+			if err != nil {
+				_ = os.Remove(tmp)
+			}
+			if err != nil {
+				fmt.Fprintln(os.Stderr, "extractfsm:", err)
+				rc = 1
+				continue
+			}
+		} else {
 			fmt.Fprintln(os.Stderr, "extractfsm:", err)
 			rc = 1
 			continue
